@@ -14,7 +14,8 @@ from vcheck.rules import cfg_of
 MANIFEST = dict(
     text="Sibling cross-check plus value-flow rules (not a behavioural proof): (1) the C engine (clang AST) and the pure-Python engine "
          "are desugared (helpers inlined, for/continue/early return/compound assignment/slice and vectorised counting idioms rewritten "
-         "to assignments, stores, if and while), lowered to guarded effects (array role, index term, value term, guard atoms, loop "
+         "to assignments, stores, if and while; in C every pointer local is typed as 'into array A, counted in elements or in strides of A' "
+         "and replaced by an integer index, so stepped pointers, hoisted base pointers / strides and accessor macros read alike), lowered to guarded effects (array role, index term, value term, guard atoms, loop "
          "descriptors; roles by shared argument position, affine induction variables in closed form) which are renamed by content "
          "(loop counters by depth, loop carried state by its update rule) and must form equal effect sets with equal initial state -- "
          "the two engines then perform the same stores under the same conditions for every input, which decides 'identical arrays' up "
@@ -40,7 +41,7 @@ ST = "esutil.stat.util."
 # rules that keep their verdict however the code is laid out (decided by term equality, effect analysis or per-path value
 # flow; they answer "not recognised" themselves when a construct cannot be identified); every other rule of this check is
 # a template rule (vcheck.core.Check.obt)
-SEMANTIC = ('R05.1', 'R05.2', 'R05.4', 'R05.3::chist::layout')
+SEMANTIC = ('R05.1', 'R05.2', 'R05.4', 'R05.3::chist::layout', 'R05.3::chist::element-casts', 'R05.3::Binner.__init__::data-is-float64', 'R05.5::dohist::dispatch')
 
 
 def run(chk):
@@ -74,7 +75,9 @@ def run(chk):
 # becomes `a = a op b`, comma expressions in statement position are split, `for` becomes init + while (body; inc), a guard
 # `if (c) continue;` becomes `if (!c) { rest }` (negation pushed through && || and the relational operators), element
 # pointers kept in a local (`p = (T *) PyArray_GETPTR1(a, i); ... *p`) and doubles that are only truncated later
-# (`t = x / y; b = (npy_int64) t`) are substituted forward into their uses.
+# (`t = x / y; b = (npy_int64) t`) are substituted forward into their uses.  Pointers into the arrays (stepped, offset, compared,
+# hoisted base pointer + stride) are replaced by element indices first (_CPtr below); a counter that is stepped under a loop
+# invariant test and read only under that test is stepped unconditionally (_c_hoist_counters).
 INT_TYPES = ("npy_int64", "int64_t", "long", "npy_intp", "int", "long long", "Py_ssize_t", "ssize_t")
 _FLIP = {"<": ">=", ">=": "<", ">": "<=", "<=": ">", "==": "!=", "!=": "=="}
 
@@ -324,7 +327,512 @@ def _c_forward(stmts, fn_body):
     return block(stmts, {})
 
 
+# ---- pointers into the arrays as (array, index) -----------------------------------------
+# An element of an array argument can be addressed by index arithmetic (rev[k], *(T *) PyArray_GETPTR1(a, k)) or through a
+# pointer that is derived from the array's buffer and stepped: `p = rev + k; *p++ = v`, `q = (char *) PyArray_DATA(a);
+# q += stride` with stride = PyArray_STRIDE(a, 0), `*(T *) (base + k * stride)`.  Every pointer local is typed once as
+# "points into array A, counted in elements | in strides of A" (all its definitions must agree) and replaced by an integer
+# variable p__ix that holds the element number; dereferences become A[index], pointer comparisons become index
+# comparisons, the stride variables disappear.  The lowering then sees the same index arithmetic whichever spelling the
+# source uses.  Anything else (byte arithmetic that is not a multiple of the array's stride, a pointer that can point into
+# two arrays, a pointer passed to a function) is refused.
+_C_OBJ_TYPES = ("PyObject *", "PyArrayObject *", "const PyArrayObject *", "const PyObject *")
+_C_BYTE_POINTEES = ("char", "void", "unsignedchar", "signedchar", "npy_uint8", "npy_int8", "npy_ubyte", "npy_byte", "uint8_t", "int8_t")
+_CMP_OPS = ("<", "<=", ">", ">=", "==", "!=")
+
+
+def _c_ref(name, ty="npy_int64", line=None):
+    return {"kind": "DeclRefExpr", "type": {"qualType": ty}, "line": line, "referencedDecl": {"kind": "VarDecl", "name": name, "type": {"qualType": ty}}}
+
+
+def _c_lit(v, line=None):
+    return {"kind": "IntegerLiteral", "value": str(v), "type": {"qualType": "int"}, "line": line}
+
+
+def _c_bin(op, a, b, line=None, ty="npy_int64"):
+    return {"kind": "BinaryOperator", "opcode": op, "type": {"qualType": ty}, "line": line, "inner": [a, b]}
+
+
+def _c_is_lit(n, v=None):
+    u = _cu(n)
+    return isinstance(u, dict) and u.get("kind") == "IntegerLiteral" and (v is None or str(u.get("value")) == str(v))
+
+
+def _c_add(a, b, op="+", line=None):
+    if _c_is_lit(b, 0):
+        return a
+    if op == "+" and _c_is_lit(a, 0):
+        return b
+    return _c_bin(op, a, b, line)
+
+
+def _c_pointee(ty):
+    t = (ty or "").replace("const", "").replace("volatile", "").replace("restrict", "").replace(" ", "")
+    return t[:-1] if t.endswith("*") else None
+
+
+def _c_name(n):
+    u = _cu(n)
+    return u.get("referencedDecl", {}).get("name") if isinstance(u, dict) and u.get("kind") == "DeclRefExpr" else None
+
+
+def _c_is_null(n):
+    u = n
+    while isinstance(u, dict) and u.get("kind") in ("ImplicitCastExpr", "ParenExpr", "CStyleCastExpr", "ConstantExpr") and u.get("inner"):
+        u = u["inner"][0]
+    return isinstance(u, dict) and (u.get("kind") in ("GNUNullExpr", "CXXNullPtrLiteralExpr") or _c_is_lit(u, 0))
+
+
+class _PV:
+    """value of a pointer expression: into array `arr`; unit 'base' (the buffer itself), 'stride' (buffer + idx * stride of
+    arr), 'elem' (typed pointer, buffer + idx elements); typed: a byte pointer seen through a cast to the element type"""
+    __slots__ = ("arr", "unit", "idx", "typed")
+
+    def __init__(self, arr, unit, idx, typed=False):
+        self.arr, self.unit, self.idx, self.typed = arr, unit, idx, typed
+
+
+class _CPtr:
+    def __init__(self, stmts, objs):
+        self.objs = set(objs)
+        self.top = stmts
+        whole = _c_compound(stmts)
+        self.types = {x["name"]: x.get("type", {}).get("qualType", "") for x in cfront.walk(whole) if x.get("kind") == "VarDecl" and x.get("name")}
+        # definitions of every local: name -> [rhs]   (declaration initialisers included)
+        self.defs = {}
+        self.decl_init = {}
+        self.stepped = set()
+        loops = [x for x in cfront.walk(whole) if x.get("kind") == "WhileStmt"]
+        self.in_loop = set()
+        for w in loops:
+            self.in_loop |= _c_assigned(w["inner"][1])
+        for x in cfront.walk(whole):
+            k = x.get("kind")
+            if k == "BinaryOperator" and x.get("opcode") == "=":
+                nm = _c_name(x["inner"][0])
+                if nm is not None and _cu(x["inner"][0]).get("kind") == "DeclRefExpr":
+                    self.defs.setdefault(nm, []).append(x["inner"][1])
+            elif k == "VarDecl" and x.get("name"):
+                init = [c for c in x.get("inner", []) or [] if isinstance(c, dict) and c.get("kind")]
+                if init:
+                    self.defs.setdefault(x["name"], []).append(init[-1])
+                    self.decl_init[x["name"]] = init[-1]
+            elif k == "UnaryOperator" and x.get("opcode") in ("++", "--"):
+                nm = _c_name(x["inner"][0])
+                if nm is not None:
+                    self.stepped.add(nm)
+        # aliases of the array objects: X = (PyArrayObject *) obj
+        self.alias = {}
+        for nm, ds in self.defs.items():
+            if self.types.get(nm) in _C_OBJ_TYPES and nm not in self.objs:
+                src = {_c_name(cfront.strip(d)) for d in ds if not _c_is_null(d)}
+                if len(src) == 1 and None not in src:
+                    self.alias[nm] = src.pop()
+        # stride variables: every definition is 0 or PyArray_STRIDE(A, 0) / PyArray_STRIDES(A)[0] of one array, outside loops
+        # (a zero is accepted only as the declaration's initialiser; the assignments stand at the top of the function, or
+        # directly under `if (PyArray_NDIM(A) > 0)`)
+        self.stride = {}
+        where = {}                          # name -> [(rhs, 'top' | array of the guarding NDIM test | None)]
+        for st in stmts:
+            if st.get("kind") == "BinaryOperator" and st.get("opcode") == "=" and _c_name(st["inner"][0]):
+                where.setdefault(_c_name(st["inner"][0]), []).append((st["inner"][1], "top"))
+            elif st.get("kind") == "IfStmt" and self.is_ndim_test(st["inner"][0]) and len([c for c in st["inner"] if isinstance(c, dict) and c.get("kind")]) == 2:
+                a = self.root(_cu(_cu(st["inner"][0])["inner"][0])["inner"][1])
+                for x in _c_block(st["inner"][1]):
+                    if x.get("kind") == "BinaryOperator" and x.get("opcode") == "=" and _c_name(x["inner"][0]):
+                        where.setdefault(_c_name(x["inner"][0]), []).append((x["inner"][1], a))
+        for nm, ds in self.defs.items():
+            if "*" in self.types.get(nm, "") or nm in self.in_loop or nm in self.stepped:
+                continue
+            inits = [d for d in ds if d is self.decl_init.get(nm)]
+            if len(inits) + len(where.get(nm, [])) != len(ds):
+                continue                     # assigned somewhere else as well
+            arrs = {self.stride_of(d) for d in inits if not _c_is_lit(d, 0)}
+            for rhs, ctx in where.get(nm, []):
+                a = self.stride_of(rhs)
+                arrs.add(a if ctx in ("top", a) else None)
+            if len(arrs) == 1 and None not in arrs:
+                self.stride[nm] = arrs.pop()
+        # pointer locals
+        self.ptrs = {nm for nm, t in self.types.items() if "*" in t and t not in _C_OBJ_TYPES and not t.replace(" ", "").endswith("**")}
+        self.pvar = {}                      # name -> (array, unit, typed)
+        self.simple = {}                    # name -> _PV with a literal index: defined once, outside loops, never stepped
+        self.used = False
+        for _ in range(6):
+            changed = False
+            for nm in sorted(self.ptrs):
+                if nm in self.pvar or nm in self.simple:
+                    continue
+                ds = [d for d in self.defs.get(nm, []) if not _c_is_null(d)]
+                if not ds:
+                    continue
+                # a definition in terms of the pointer itself (p = p + stride) is checked against the type the other
+                # definitions give, when the statement is rewritten (define)
+                selfref = [d for d in ds if nm in _c_refs(d)]
+                ds = [d for d in ds if nm not in _c_refs(d)]
+                if not ds:
+                    continue
+                vals = []
+                try:
+                    for d in ds:
+                        vals.append(self.pval(d, probe=True))
+                except NotImplementedError:
+                    continue
+                if any(v is None for v in vals):
+                    continue
+                vals = [self.coerce(v, nm) for v in vals]
+                sig = {(v.arr, v.unit, v.typed) for v in vals}
+                if len(sig) != 1:
+                    raise NotImplementedError("pointer `%s` is derived from different arrays / in different units" % nm)
+                if len(vals) == 1 and not selfref and nm not in self.in_loop and nm not in self.stepped and _c_is_lit(vals[0].idx, 0):
+                    self.simple[nm] = vals[0]
+                else:
+                    self.pvar[nm] = sig.pop()
+                changed = True
+            if not changed:
+                break
+
+    # -- classification helpers ----------------------------------------------------
+    def root(self, n):
+        nm = _c_name(cfront.strip(n)) if isinstance(n, dict) else n
+        seen = set()
+        while nm in self.alias and nm not in seen:
+            seen.add(nm)
+            nm = self.alias[nm]
+        return nm if nm in self.objs else None
+
+    def stride_of(self, e):
+        """the array whose first-axis stride the expression is, else None"""
+        u = _cu(e)
+        if not isinstance(u, dict):
+            return None
+        if u.get("kind") == "DeclRefExpr":
+            return self.stride.get(u.get("referencedDecl", {}).get("name"))
+        if u.get("kind") == "CStyleCastExpr" and _c_pointee(u.get("type", {}).get("qualType")) is None:
+            return self.stride_of(u["inner"][0])
+        if u.get("kind") == "CallExpr" and cfront.callee_name(u) == "PyArray_STRIDE" and len(u["inner"]) == 3 and _c_is_lit(u["inner"][2], 0):
+            return self.root(u["inner"][1])
+        if u.get("kind") == "ArraySubscriptExpr" and _c_is_lit(u["inner"][1], 0):
+            b = _cu(u["inner"][0])
+            if b.get("kind") == "CallExpr" and cfront.callee_name(b) == "PyArray_STRIDES" and len(b["inner"]) == 2:
+                return self.root(b["inner"][1])
+        return None
+
+    def stride_mult(self, off, arr, probe):
+        """m with off == m * stride(arr), else None"""
+        if self.stride_of(off) == arr:
+            return _c_lit(1, off.get("line"))
+        u = _cu(off)
+        if u.get("kind") == "BinaryOperator" and u.get("opcode") == "*":
+            a, b = u["inner"]
+            if self.stride_of(b) == arr:
+                return self.rw(a) if not probe else a
+            if self.stride_of(a) == arr:
+                return self.rw(b) if not probe else b
+        return None
+
+    def coerce(self, v, var):
+        """the value as stored in pointer variable `var`"""
+        if v.unit == "base":
+            byte = _c_pointee(self.types.get(var)) in _C_BYTE_POINTEES
+            return _PV(v.arr, "stride" if byte else "elem", _c_lit(0), False)
+        return v
+
+    def pval(self, e, probe=False):
+        """_PV of a pointer valued expression, None when the expression is not a pointer into one of the arrays"""
+        if not isinstance(e, dict):
+            return None
+        k = e.get("kind")
+        ln = e.get("line")
+        if k in ("ImplicitCastExpr", "ParenExpr", "ConstantExpr") and e.get("inner"):
+            return self.pval(e["inner"][0], probe)
+        if k == "CStyleCastExpr":
+            v = self.pval(e["inner"][0], probe)
+            pt = _c_pointee(e.get("type", {}).get("qualType"))
+            if v is None or pt is None:
+                return None
+            if pt in _C_BYTE_POINTEES:
+                if v.unit == "elem" or v.typed:
+                    raise NotImplementedError("element pointer into `%s` reinterpreted as bytes (line %s)" % (v.arr, ln))
+                return v
+            if v.unit == "base":
+                return _PV(v.arr, "elem", _c_lit(0, ln))
+            if v.unit == "stride":
+                return _PV(v.arr, "stride", v.idx, True)
+            return v
+        if k == "CallExpr":
+            if cfront.callee_name(e) in _C_DATA_FUNCS and len(e["inner"]) == 2:
+                a = self.root(e["inner"][1])
+                return _PV(a, "base", None) if a else None
+            return None
+        if k == "DeclRefExpr":
+            nm = e.get("referencedDecl", {}).get("name")
+            if nm in self.simple:
+                v = self.simple[nm]
+                return _PV(v.arr, v.unit, _c_lit(0, ln), v.typed)
+            if nm in self.pvar:
+                a, unit, typed = self.pvar[nm]
+                return _PV(a, unit, _c_ref(nm + "__ix", line=ln), typed)
+            return None
+        if k == "BinaryOperator" and e.get("opcode") in ("+", "-"):
+            l, r = self.pval(e["inner"][0], probe), self.pval(e["inner"][1], probe)
+            if l is not None and r is None:
+                p, off = l, e["inner"][1]
+            elif r is not None and l is None and e["opcode"] == "+":
+                p, off = r, e["inner"][0]
+            else:
+                return None
+            if p.unit in ("base", "stride"):
+                if p.typed:
+                    raise NotImplementedError("element arithmetic on a strided pointer into `%s` (line %s)" % (p.arr, ln))
+                m = self.stride_mult(off, p.arr, probe)
+                if m is None:
+                    raise NotImplementedError("byte arithmetic on `%s` that is not a multiple of its stride (line %s)" % (p.arr, ln))
+                return _PV(p.arr, "stride", m if p.unit == "base" and e["opcode"] == "+" else _c_add(p.idx or _c_lit(0, ln), m, e["opcode"], ln))
+            return _PV(p.arr, "elem", _c_add(p.idx, off if probe else self.rw(off), e["opcode"], ln))
+        return None
+
+    # -- rewriting -----------------------------------------------------------------
+    def elem(self, v, line):
+        self.used = True
+        return {"kind": "ArraySubscriptExpr", "type": {"qualType": "npy_int64"}, "line": line,
+                "inner": [_c_ref(v.arr, "PyObject *", line), v.idx if v.idx is not None else _c_lit(0, line)]}
+
+    def rw(self, n, side=None):
+        """copy of expression n with the pointer constructs rewritten; side: list receiving (name, +1/-1, 'pre'|'post') for
+        ++ / -- applied to a pointer inside the expression (None: not allowed here)"""
+        if not isinstance(n, dict) or not n.get("kind"):
+            return n
+        k, ln = n.get("kind"), n.get("line")
+        if k == "UnaryOperator" and n.get("opcode") == "*":
+            o = _cu(n["inner"][0])
+            if o.get("kind") == "UnaryOperator" and o.get("opcode") in ("++", "--") and _c_name(o["inner"][0]) in self.pvar:
+                nm = _c_name(o["inner"][0])
+                a, unit, typed = self.pvar[nm]
+                if unit != "elem" or side is None:
+                    raise NotImplementedError("`%s%s` at line %s" % (nm, o["opcode"], ln))
+                d = 1 if o["opcode"] == "++" else -1
+                side.append((nm, d, "post" if o.get("isPostfix") else "pre"))
+                return self.elem(_PV(a, unit, _c_ref(nm + "__ix", line=ln)), ln)
+            v = self.pval(n["inner"][0])
+            if v is not None:
+                if v.unit == "base" or (v.unit == "stride" and not v.typed):
+                    raise NotImplementedError("byte read from `%s` (line %s)" % (v.arr, ln))
+                return self.elem(v, ln)
+        if k == "ArraySubscriptExpr":
+            b = _cu(n["inner"][0])
+            if not (b.get("kind") == "DeclRefExpr" and b.get("referencedDecl", {}).get("name") in self.simple and self.simple[b["referencedDecl"]["name"]].unit == "elem"):
+                v = self.pval(n["inner"][0])
+                if v is not None:
+                    if v.unit == "elem":
+                        return self.elem(_PV(v.arr, "elem", _c_add(v.idx, self.rw(n["inner"][1]), "+", ln)), ln)
+                    if v.unit == "stride" and v.typed and _c_is_lit(n["inner"][1], 0):
+                        return self.elem(v, ln)
+                    raise NotImplementedError("subscript of a byte pointer into `%s` (line %s)" % (v.arr, ln))
+            else:
+                return dict(n, inner=[n["inner"][0], self.rw(n["inner"][1], side)])
+        if k == "BinaryOperator" and n.get("opcode") in _CMP_OPS + ("-",):
+            l, r = self.pval(n["inner"][0]), self.pval(n["inner"][1])
+            if l is not None and r is not None:
+                if l.arr != r.arr or {l.unit, r.unit} - {"base"} not in ({"elem"}, {"stride"}, set()) or l.typed != r.typed:
+                    raise NotImplementedError("pointers into different arrays compared (line %s)" % ln)
+                self.used = True
+                return _c_bin(n["opcode"], l.idx or _c_lit(0, ln), r.idx or _c_lit(0, ln), ln, "int" if n["opcode"] in _CMP_OPS else "npy_int64")
+            if (l is None) != (r is None) and n.get("opcode") in _CMP_OPS:
+                raise NotImplementedError("pointer compared with a non-pointer (line %s)" % ln)
+        if k == "DeclRefExpr":
+            nm = n.get("referencedDecl", {}).get("name")
+            if nm in self.pvar or nm in self.stride or (nm in self.simple and self.simple[nm].unit != "elem"):
+                raise NotImplementedError("`%s` used in a way that is not modelled (line %s)" % (nm, ln))
+            return n
+        if k == "UnaryOperator" and n.get("opcode") in ("++", "--") and _c_name(n["inner"][0]) in self.pvar:
+            raise NotImplementedError("pointer step inside an expression (line %s)" % ln)
+        if not n.get("inner"):
+            return n
+        return dict(n, inner=[self.rw(c, side) for c in n["inner"]])
+
+    def set_ix(self, nm, idx, line):
+        return {"kind": "BinaryOperator", "opcode": "=", "type": {"qualType": "npy_int64"}, "line": line, "inner": [_c_ref(nm + "__ix", line=line), idx]}
+
+    def step(self, nm, d, line):
+        self.used = True
+        return self.set_ix(nm, _c_bin("+" if d > 0 else "-", _c_ref(nm + "__ix", line=line), _c_lit(1, line), line), line)
+
+    def define(self, nm, rhs, line):
+        if _c_is_null(rhs):
+            return []
+        v = self.pval(rhs)
+        if v is None:
+            raise NotImplementedError("definition of pointer `%s` at line %s" % (nm, line))
+        v = self.coerce(v, nm)
+        if (v.arr, v.unit, v.typed) != self.pvar[nm]:
+            raise NotImplementedError("pointer `%s` is derived from different arrays / in different units" % nm)
+        self.used = True
+        return [self.set_ix(nm, v.idx, line)]
+
+    def block(self, nodes):
+        out = []
+        for st in nodes:
+            out.extend(self.stmt(st))
+        return out
+
+    def is_ndim_test(self, c):
+        u = _cu(c)
+        if u.get("kind") == "BinaryOperator" and u.get("opcode") in (">", ">=", "!="):
+            a = _cu(u["inner"][0])
+            return a.get("kind") == "CallExpr" and cfront.callee_name(a) == "PyArray_NDIM" and self.root(a["inner"][1]) is not None and _c_is_lit(u["inner"][1])
+        return False
+
+    def stmt(self, st):
+        k, ln = st.get("kind"), st.get("line")
+        if k == "DeclStmt":
+            out = [st]
+            for v in st.get("inner", []) or []:
+                if v.get("kind") == "VarDecl" and v.get("name") in self.pvar:
+                    init = [c for c in v.get("inner", []) or [] if isinstance(c, dict) and c.get("kind")]
+                    if init:
+                        out.extend(self.define(v["name"], init[-1], v.get("line", ln)))
+            return out
+        if k == "BinaryOperator" and st.get("opcode") == "=":
+            lhs = _cu(st["inner"][0])
+            nm = _c_name(lhs) if lhs.get("kind") == "DeclRefExpr" else None
+            if nm in self.pvar:
+                return self.define(nm, st["inner"][1], ln)
+            if nm in self.stride:
+                return []
+            if nm in self.simple and self.simple[nm].unit != "elem":
+                return []                        # a byte pointer to the buffer: only ever used through its stride
+            side = []
+            new = dict(st, inner=[self.rw(st["inner"][0], side), self.rw(st["inner"][1], side)])
+            return [self.step(n_, d, ln) for n_, d, w in side if w == "pre"] + [new] + [self.step(n_, d, ln) for n_, d, w in side if w == "post"]
+        if k == "UnaryOperator" and st.get("opcode") in ("++", "--") and _c_name(st["inner"][0]) in self.pvar:
+            nm = _c_name(st["inner"][0])
+            if self.pvar[nm][1] != "elem":
+                raise NotImplementedError("byte step of `%s` (line %s)" % (nm, ln))
+            return [self.step(nm, 1 if st["opcode"] == "++" else -1, ln)]
+        if k == "IfStmt":
+            inner = st["inner"]
+            acc = []
+            sibling.find_calls(inner[0], "PyArg_ParseTuple", acc)
+            if acc or st.get("hasInit") or st.get("hasVar"):
+                return [st]
+            arms = [_c_compound(self.block(_c_block(b)), ln) for b in inner[1:] if isinstance(b, dict) and b.get("kind")]
+            if self.is_ndim_test(inner[0]) and not any(a["inner"] for a in arms):
+                return []                        # only guarded the definition of a stride variable
+            return [dict(st, inner=[self.rw(inner[0])] + arms)]
+        if k == "WhileStmt":
+            return [dict(st, inner=[self.rw(st["inner"][0]), _c_compound(self.block(_c_block(st["inner"][1])), ln)])]
+        if k == "CompoundStmt":
+            return self.block(st.get("inner", []) or [])
+        if k in ("ReturnStmt", "NullStmt"):
+            return [st]
+        return [self.rw(st)]
+
+    def run(self):
+        if not self.pvar and not self.stride and not any(v.unit != "elem" for v in self.simple.values()):
+            return self.top, False
+        out = self.block(self.top)
+        return out, self.used
+
+
+def _c_guard_conjuncts(c):
+    u = _cu(c)
+    if u.get("kind") == "BinaryOperator" and u.get("opcode") == "&&":
+        return _c_guard_conjuncts(u["inner"][0]) + _c_guard_conjuncts(u["inner"][1])
+    return [cfront.render(u)]
+
+
+def _c_reads(n, v, skip=()):
+    """number of reads of scalar v inside n (the left side of a plain assignment is a write); nodes in `skip` are not entered"""
+    if not isinstance(n, dict) or any(n is s_ for s_ in skip):
+        return 0
+    if n.get("kind") == "DeclRefExpr":
+        return 1 if n.get("referencedDecl", {}).get("name") == v else 0
+    kids = n.get("inner", []) or []
+    if n.get("kind") == "BinaryOperator" and n.get("opcode") == "=" and _cu(kids[0]).get("kind") == "DeclRefExpr":
+        kids = kids[1:]
+    return sum(_c_reads(c, v, skip) for c in kids)
+
+
+def _c_unguarded_reads(nodes, v, g, skip, under=False):
+    """reads of v in the statements that are not inside the then-arm of an `if` whose condition has g among its conjuncts"""
+    n = 0
+    for st in nodes:
+        if any(st is s_ for s_ in skip):
+            continue
+        k = st.get("kind")
+        if k == "IfStmt":
+            inner = st["inner"]
+            if not under:
+                n += _c_reads(inner[0], v)
+            has = under or g in _c_guard_conjuncts(inner[0])
+            n += _c_unguarded_reads(_c_block(inner[1]), v, g, skip, has)
+            if len(inner) > 2:
+                n += _c_unguarded_reads(_c_block(inner[2]), v, g, skip, under)
+        elif k == "WhileStmt":
+            if not under:
+                n += _c_reads(st["inner"][0], v)
+            n += _c_unguarded_reads(_c_block(st["inner"][1]), v, g, skip, under)
+        elif k == "CompoundStmt":
+            n += _c_unguarded_reads(_c_block(st), v, g, skip, under)
+        elif not under:
+            n += _c_reads(st, v)
+    return n
+
+
+def _c_hoist_counters(stmts):
+    """`if (g) { ...; v = v + c; }` at the top of a loop body, g invariant, v read nowhere but under g and not after the
+    increment in the same iteration: the increment is moved to the end of the loop body (unconditional).  Where g holds the
+    loop does what it did; where it does not, v is never read.  The counter is then an affine function of the loop counter."""
+    def counts(n, v):
+        return sum(1 for x in cfront.walk(n) if ((x.get("kind") == "BinaryOperator" and x.get("opcode") == "=") or x.get("kind") == "CompoundAssignOperator" or
+                                                 (x.get("kind") == "UnaryOperator" and x.get("opcode") in ("++", "--"))) and _c_name(x["inner"][0]) == v and _cu(x["inner"][0]).get("kind") == "DeclRefExpr")
+
+    def visit(nodes, ti):
+        for pos, st in enumerate(nodes):
+            t = pos if ti is None else ti
+            k = st.get("kind")
+            if k == "IfStmt":
+                for b in st["inner"][1:]:
+                    if isinstance(b, dict) and b.get("kind") == "CompoundStmt":
+                        visit(b["inner"], t)
+            elif k == "WhileStmt":
+                body = st["inner"][1]["inner"]
+                visit(body, t)
+                for bi, s in enumerate(list(body)):
+                    if s.get("kind") != "IfStmt" or len([c for c in s["inner"] if isinstance(c, dict) and c.get("kind")]) != 2:
+                        continue
+                    conj = _c_guard_conjuncts(s["inner"][0])
+                    if len(conj) != 1 or any(x.get("kind") in ("CallExpr", "ArraySubscriptExpr", "UnaryOperator") and x.get("opcode") != "!" for x in cfront.walk(s["inner"][0])):
+                        continue
+                    g = conj[0]
+                    later = set()
+                    for x in stmts[t:]:
+                        later |= _c_assigned(x)
+                    if _c_refs(s["inner"][0]) & later:
+                        continue
+                    arm = s["inner"][1]["inner"]
+                    for ai, a in enumerate(list(arm)):
+                        if not (a.get("kind") == "BinaryOperator" and a.get("opcode") == "=" and _cu(a["inner"][0]).get("kind") == "DeclRefExpr"):
+                            continue
+                        v = _c_name(a["inner"][0])
+                        r = _cu(a["inner"][1])
+                        if not (r.get("kind") == "BinaryOperator" and r.get("opcode") in ("+", "-") and _c_name(r["inner"][0]) == v and _cu(r["inner"][0]).get("kind") == "DeclRefExpr" and _c_is_lit(r["inner"][1])):
+                            continue
+                        if counts(st, v) != 1:
+                            continue
+                        if any(_c_reads(x, v) for x in arm[ai + 1:]) or any(_c_reads(x, v) for x in body[bi + 1:]):
+                            continue
+                        if _c_unguarded_reads(stmts, v, g, skip=(a,)):
+                            continue
+                        arm.remove(a)
+                        body.append(a)
+    visit(stmts, None)
+    return stmts
+
+
 _c_helper_cache = {}
+ASSUMED = []
 
 
 def _c_helper_loader(tu):
@@ -345,11 +853,35 @@ def _c_helper_loader(tu):
     return load
 
 
+def _c_pointer_model(d, tu):
+    """(statements of the function after the statement level desugaring, pointer typing of its locals); d is modified"""
+    body = cfront.body_of(d)
+    stmts = _CPrep(_c_helper_loader(tu)).stmts(body.get("inner", []) or [])
+    try:
+        objs = [n for n in sibling.c_roles(d)]
+    except AnalysisError:
+        objs = []
+    return stmts, _CPtr(stmts, objs)
+
+
+def c_pointer_model(decl, tu="chist"):
+    """the same on a copy; None when the function uses a construct the desugaring does not know"""
+    try:
+        return _c_pointer_model(copy.deepcopy(decl), tu)
+    except NotImplementedError:
+        return None
+
+
 def c_prepare(decl, tu="chist"):
     """copy of the C function with the constructs listed above rewritten for the sibling lowering"""
     d = copy.deepcopy(decl)
     body = cfront.body_of(d)
-    stmts = _CPrep(_c_helper_loader(tu)).stmts(body.get("inner", []) or [])
+    stmts, cp = _c_pointer_model(d, tu)
+    stmts, used = cp.run()
+    if used:
+        stmts = _c_hoist_counters(stmts)
+        if cp.stride:
+            ASSUMED.append("the arrays handed to the C engine have at least one dimension (the stride variables %s stand for the first-axis stride)" % ", ".join(sorted(cp.stride)))
     stmts = _c_forward(stmts, _c_compound(stmts))
     body["inner"] = stmts
     return d
@@ -574,6 +1106,8 @@ class _PyPrep:
                 return _Vec(v.length, lambda i: ast.BoolOp(op=ast.And(), values=[le(i), re_(i)]), None, True)
             return _Vec(v.length, lambda i, op=e.op: ast.BinOp(left=le(i), op=op, right=re_(i)))
         if isinstance(e, ast.Compare) and len(e.ops) == 1:
+            if isinstance(e.ops[0], (ast.Is, ast.IsNot, ast.In, ast.NotIn)):
+                return None                       # identity / membership tests give one truth value, not a mask
             l, r = self.vexpr(e.left), self.vexpr(e.comparators[0])
             if l is None and r is None:
                 return None
@@ -878,6 +1412,20 @@ def engine_effects(ir, roles):
             e.loops = tuple(str(nf(r.under(c, G))) for c in lc)
             e.i = str(nf(rn(i))) if i is not None else ""
             e.v = str(nf(r.under(v2, G)))
+        # a guard that is the entry condition of an enclosing loop (its condition at counter 0) adds nothing: the loop body
+        # runs only when that condition held (`if (b > old) for (t = old + 1; t <= b; t++)` == the bare loop)
+        for d, c in enumerate(lc):
+            if not isinstance(c, sp.Basic):
+                continue
+            c0 = c.xreplace({sp.Symbol("K%d" % d, integer=True): sp.Integer(0)})
+            for a0 in (c0.args if isinstance(c0, sp.And) else (c0,)):
+                try:
+                    t0 = str(nf(a0))
+                except Exception:
+                    continue
+                if t0 in e.atoms and len(e.atoms) > 0:
+                    del e.atoms[t0]
+            e.g = frozenset(e.atoms)
         fs = set()
         for x in lc + list(G) + [v2] + ([rn(i)] if isinstance(i, sp.Basic) else []):
             if isinstance(x, sp.Basic):
@@ -964,7 +1512,10 @@ def engines(chk, repo, py, cfn):
     """R05.1 (the engines perform the same guarded effects) and R05.2 (count / index pairing, on the Python engine's effects)"""
     try:
         py_l = py_prepare(repo, py)
+        del ASSUMED[:]
         cfn_l = c_prepare(cfn)
+        for a in ASSUMED:
+            chk.assume(a)
     except NotImplementedError as e:
         raise AnalysisError("engine construct not supported by the desugaring: %s" % e)
     EA, ia, EB, ib = compare_engines(py_l, cfn_l)
@@ -1018,7 +1569,8 @@ def engines(chk, repo, py, cfn):
     chk.ob("R05.2", "engine::state::last-occupied-bin", len(binst) == 1, w, "the last occupied bin is updated to b exactly when a datum is counted (%s)" % sorted((a, e.v) for a, e in st.items()))
     SB = sp.Symbol(binst[0]) if len(binst) == 1 else sp.Symbol("T?")
     fills = [e for e in revs if e.v == OFF and len(e.loops) == 2]
-    ok = len(fills) == 1 and fills[0].i == str(nf(SB + K1 + 1)) and str(nf(SB < BINe)) in fills[0].g and fills[0].loops == (MAIN, str(nf(SB + K1 + 1 <= BINe)))
+    # (the guard `previous bin < b` is the entry condition of the inner loop below: implied, and dropped from the effect)
+    ok = len(fills) == 1 and fills[0].i == str(nf(SB + K1 + 1)) and fills[0].loops == (MAIN, str(nf(SB + K1 + 1 <= BINe)))
     chk.ob("R05.2", "engine::bin-offsets-filled-up-to-current-bin", ok, w, "when a datum opens bin b, rev[t] = offset for every t in (previous bin, b] (empty bins in between get the same offset)")
     chk.ob("R05.2", "engine::effect-count", len(revs) == 3, w, "three kinds of stores into the reverse-index array (index, bin offset, tail)")
     # the offsets of the bins past the last occupied one
@@ -1517,31 +2069,91 @@ def abi(chk, repo, cfn):
     chk.ob("R05.3", "Binner._do_hist::positional-call", _verdict(v_c), dh.where(), "chist(data, min, sort index, binsize, hist, rev) matches the parse order (%s)" % sorted(set(seen["c"])))
     chk.ob("R05.3", "Binner._do_hist::python-engine-same-roles", _verdict(v_p), dh.where(), "the Python engine receives the same six values in the same roles (%s)" % sorted(set(seen["py"])))
     # element types read/written by the C engine
-    casts = {}
-    for x in cfront.walk(cfront.body_of(cfn)):
-        if x.get("kind") == "CStyleCastExpr" and "*" in x.get("type", {}).get("qualType", ""):
-            objs = {r.get("referencedDecl", {}).get("name") for r in cfront.walk(x) if r.get("kind") == "DeclRefExpr"} & set(names)
-            for o in objs:
-                t = x["type"]["qualType"].replace("const", "").replace(" ", "")
-                if t not in ("void*", "char*", "PyArrayObject*"):
-                    casts.setdefault(o, set()).add(t)
+    # (the element type an array is read / written with: the pointee type of every cast, and of every pointer local, that
+    # points into the array's buffer -- directly, through the strides, or through a pointer derived from it)
+    casts, unknown = c_element_types(cfn, names)
     wantc = {names[0]: {"double*"}, names[2]: {"npy_int64*"}, names[4]: {"npy_int64*"}, names[5]: {"npy_int64*"}} if len(names) == 6 else {}
-    chk.ob("R05.3", "chist::element-casts", casts == wantc, "esutil/stat/chist_pywrap.c", "C reads data as double and sort index / hist / rev as 64-bit integers (%s)" % {k: sorted(v) for k, v in casts.items()})
+    # violated: an array is accessed through a pointer of another element type; held: every array is accessed, and only with its
+    # own element type; otherwise (an access that was not found, a pointer whose array could not be established): not recognised
+    wrong = {o: sorted(t - wantc.get(o, set())) for o, t in casts.items() if t - wantc.get(o, set())}
+    ok = False if wrong else (True if casts == wantc and not unknown else None)
+    chk.ob("R05.3", "chist::element-casts", ok, "esutil/stat/chist_pywrap.c:%s" % cfn.get("line", 1),
+           "C reads data as double and sort index / hist / rev as 64-bit integers (%s%s)" % ({k: sorted(v) for k, v in casts.items()}, "; not resolved: %s" % unknown if unknown else ""))
     # bare-pointer element access only on arrays that are contiguous on every path
     layout(chk, repo, cfn, names, units, dh, pe, c_bind if paths is not None else [None])
     # python-side dtype provenance of the buffers that reach the engines
     chk.ob("R05.3", "Binner._do_hist::int64-out-buffers", _verdict(v_buf), dh.where(), "hist (nbin) and rev reach the engines as freshly zeroed int64 arrays")
     chk.ob("R05.3", "Binner._do_hist::rev-size", _verdict(v_size), dh.where(), "rev has nbin+1 offsets followed by one slot per sorted datum")
     init = repo.func(ST + "Binner.__init__")
-    conv = {norm(a.targets[0]): a.value for a in walk_no_nested(init.node) if isinstance(a, ast.Assign)}
-    dt = _converted(conv.get("self.x")) if "self.x" in conv else None
-    chk.ob("R05.3", "Binner.__init__::data-is-float64", dt is not None and norm(dt[0]) in FLOAT64 and _is_name(dt[1], init.params[1]), init.where(), "the binned data are converted to float64 (matches the C double read)")
+    # the value that reaches the cell self.x on every path that returns, private conversion helpers followed
+    vs, seen_x = [], set()
+    for st in _paths(repo, init) or [None]:
+        if st is None:
+            vs.append(None)
+            continue
+        if st.outcome == "raise":
+            continue
+        v = st.env.get("self.x")
+        if v is None:
+            vs.append(None)
+            continue
+        seen_x.add(norm(v))
+        dt = _converted(v)
+        if dt is not None and _is_name(dt[1], init.params[1]):
+            # converted to float64: held; to another literal dtype: violated; to a dtype computed elsewhere: not recognised
+            vs.append(True if norm(dt[0]) in FLOAT64 else (False if _dtype_literal(dt[0]) else None))
+        elif dt is None and _is_name(_unwrapped(v), init.params[1]):
+            vs.append(False)                           # the caller's values as they are (whatever their dtype): no conversion at all
+        else:
+            vs.append(None)
+    chk.ob("R05.3", "Binner.__init__::data-is-float64", _verdict(vs), init.where(), "the binned data are converted to float64 (matches the C double read): %s" % sorted(seen_x))
     si = repo.func(ST + "Binner._get_sort_index")
     srt = [x for x in walk_no_nested(si.node) if isinstance(x, ast.Call) and call_name(x) == "argsort"]
     ok = len(srt) == 1 and _stable_argsort(srt[0])
     chk.ob("R05.4", "Binner._get_sort_index::stable-argsort", ok, si.where(), "the sort index is a stable argsort of the data (ties keep original order)")
     # the two callers of _do_hist pass float64 data and an int64 sort index
     engine_callers(chk, repo, dh)
+
+
+# element types that are the same object representation on the assumed platform (LP64): spelled one way for the comparison
+_C_SAME_ELEM = {"int64_t": "npy_int64", "long": "npy_int64", "longlong": "npy_int64", "npy_intp": "npy_int64", "npy_longlong": "npy_int64", "npy_long": "npy_int64",
+                "Py_ssize_t": "npy_int64", "ssize_t": "npy_int64", "signedlong": "npy_int64", "longint": "npy_int64", "npy_float64": "double", "npy_double": "double"}
+
+
+def c_element_types(cfn, names):
+    """({array object: {element pointer types it is accessed through}}, [pointer casts / locals whose array is not known])"""
+    casts, unknown = {}, []
+    model = c_pointer_model(cfn)
+    if model is None:
+        return casts, ["the pointer locals of the function"]
+    stmts, cp = model
+    known = set(names) | set(cp.alias) | set(cp.ptrs)
+    for x in cfront.walk(_c_compound(stmts)):
+        if x.get("kind") == "CStyleCastExpr":
+            pt = _c_pointee(x.get("type", {}).get("qualType"))
+            if pt is None or pt in _C_BYTE_POINTEES or pt in ("PyArrayObject", "PyObject", "PyArrayObject_fields"):
+                continue
+            try:
+                v = cp.pval(x, probe=True)
+            except NotImplementedError:
+                v = None
+            pt = _C_SAME_ELEM.get(pt, pt)
+            if v is not None:
+                casts.setdefault(v.arr, set()).add(pt + "*")
+            elif _c_refs(x) & known:
+                unknown.append("(%s *) at line %s" % (pt, x.get("line")))
+    for nm in sorted(cp.ptrs):
+        pt = _c_pointee(cp.types.get(nm))
+        if pt is None or pt in _C_BYTE_POINTEES:
+            continue
+        pt = _C_SAME_ELEM.get(pt, pt)
+        if nm in cp.simple:
+            casts.setdefault(cp.simple[nm].arr, set()).add(pt + "*")
+        elif nm in cp.pvar:
+            casts.setdefault(cp.pvar[nm][0], set()).add(pt + "*")
+        elif [d for d in cp.defs.get(nm, []) if not _c_is_null(d)]:
+            unknown.append("pointer `%s`" % nm)
+    return casts, unknown
 
 
 # ---- R05.3 memory layout ---------------------------------------------------------
@@ -1575,7 +2187,77 @@ def _c_bases(e, objs):
 
 def c_array_access(cfn, objs):
     """how the C function addresses the elements of its array arguments:
-    {object name: {'strided': [line], 'raw': [(text, line)], 'unknown': [(text, line)], 'aware': [callee]}}"""
+    {object name: {'strided': [line], 'raw': [(text, line)], 'unknown': [(text, line)], 'aware': [callee]}}
+    Decided on the pointer typing of the function's locals (_CPtr): an access through a pointer counted in elements is a
+    bare-buffer access, one through a pointer counted in strides of the array is stride aware, whichever way the pointer
+    was obtained (accessor macro, hoisted base pointer and stride, stepped pointer)."""
+    model = c_pointer_model(cfn)
+    if model is None:
+        return _c_array_access_syntactic(cfn, objs)
+    stmts, cp = model
+    acc = {o: {"strided": [], "raw": [], "unknown": [], "aware": []} for o in objs}
+
+    def arrays_in(e):
+        out = set()
+        for r in _c_refs(e):
+            a = cp.root(r)
+            if a is None and r in cp.simple:
+                a = cp.simple[r].arr
+            if a is None and r in cp.pvar:
+                a = cp.pvar[r][0]
+            if a in acc:
+                out.add(a)
+        return out
+
+    def access(addr, line, index=None):
+        u = _cu(addr)
+        if u.get("kind") == "UnaryOperator" and u.get("opcode") in ("++", "--"):
+            addr = u["inner"][0]
+        try:
+            v = cp.pval(addr, probe=True)
+        except NotImplementedError:
+            v = None
+        if v is not None and v.arr in acc:
+            if v.unit == "stride" and (index is None or _c_is_lit(index, 0)):
+                acc[v.arr]["strided"].append(line)
+            elif v.unit in ("elem", "base"):
+                acc[v.arr]["raw"].append(("`%s`" % cfront.render(addr)[:60], line))
+            else:
+                acc[v.arr]["unknown"].append(("`%s`" % cfront.render(addr)[:60], line))
+            return
+        for a in arrays_in(addr):
+            acc[a]["unknown"].append(("`%s`" % cfront.render(addr)[:60], line))
+    for x in cfront.walk(_c_compound(stmts)):
+        k = x.get("kind")
+        if k == "UnaryOperator" and x.get("opcode") == "*":
+            access(x["inner"][0], x.get("line"))
+        elif k == "ArraySubscriptExpr":
+            b = _cu(x["inner"][0])
+            if b.get("kind") == "CallExpr" and cfront.callee_name(b) not in _C_DATA_FUNCS:
+                continue                               # PyArray_STRIDES(a)[0] / PyArray_DIMS(a)[0]: not an element access
+            access(x["inner"][0], x.get("line"), x["inner"][1])
+        elif k == "CallExpr":
+            f = cfront.callee_name(x) or ""
+            for a in (x.get("inner", []) or [])[1:]:
+                nm = _c_name(cfront.strip(a))
+                o = cp.root(nm) if nm else None
+                if o in acc and f in _C_LAYOUT_AWARE:
+                    acc[o]["aware"].append(f)
+                elif nm and (nm in cp.simple or nm in cp.pvar or (nm in cp.ptrs and arrays_in(a))) and not f.startswith(("Py", "_Py", "Npy", "npy_")):
+                    # the pointer is handed to a helper, which indexes it
+                    o, unit = (cp.simple[nm].arr, cp.simple[nm].unit) if nm in cp.simple else (cp.pvar[nm][0], cp.pvar[nm][1]) if nm in cp.pvar else (None, None)
+                    if o in acc:
+                        acc[o]["raw" if unit == "elem" else "unknown"].append(("pointer `%s` passed to %s()" % (nm, f), x.get("line")))
+    # pointer locals that hold something derived from an array but could not be typed
+    for nm in sorted(cp.ptrs - set(cp.simple) - set(cp.pvar)):
+        for d in cp.defs.get(nm, []):
+            for a in arrays_in(d):
+                acc[a]["unknown"].append(("pointer `%s`" % nm, d.get("line")))
+    return acc
+
+
+def _c_array_access_syntactic(cfn, objs):
+    """fallback of c_array_access when the function cannot be desugared: accessor calls found in the address expressions"""
     body = cfront.body_of(cfn)
     acc = {o: {"strided": [], "raw": [], "unknown": [], "aware": []} for o in objs}
     types = {x["name"]: x.get("type", {}).get("qualType", "") for x in cfront.walk(cfn) if x.get("kind") in ("VarDecl", "ParmVarDecl") and x.get("name")}
@@ -1860,6 +2542,25 @@ def _converted(e):
     return None
 
 
+def _dtype_literal(t):
+    """the dtype is written out: a string, np.<type>, or a builtin type name"""
+    return (isinstance(t, ast.Constant) and isinstance(t.value, str)) or (isinstance(t, ast.Attribute) and norm(t.value) in _NP) or \
+        (isinstance(t, ast.Name) and t.id in ("int", "float", "bool", "complex"))
+
+
+def _unwrapped(e):
+    """the array behind calls that neither convert nor copy: np.atleast_1d(X) / np.asarray(X) / np.asanyarray(X) / X.ravel() / np.ravel(X) / np.squeeze(X)"""
+    while isinstance(e, ast.Call) and not e.keywords and isinstance(e.func, ast.Attribute):
+        nm = e.func.attr
+        if norm(e.func.value) in _NP and nm in ("atleast_1d", "asarray", "asanyarray", "ravel", "squeeze") and len(e.args) == 1:
+            e = e.args[0]
+        elif nm in ("ravel", "squeeze") and not e.args:
+            e = e.func.value
+        else:
+            break
+    return e
+
+
 def _stable_argsort(c):
     """x.argsort(kind='stable') / np.argsort(x, kind='stable') of the binned data self.x"""
     if not (isinstance(c, ast.Call) and call_name(c) == "argsort"):
@@ -1930,6 +2631,8 @@ def engine_callers(chk, repo, dh):
         if st.outcome == "raise":
             continue
         cs = [c for c in st.calls if c.name == "self." + dh.name]
+        if not cs:
+            continue                                   # this path does not use the histogram engines: nothing reaches them
         if len(cs) != 1 or cs[0].in_loop:
             vs.append(None)
             continue
@@ -1946,7 +2649,10 @@ def engine_callers(chk, repo, dh):
             continue
         vs.append(norm(m["_T"]) in FLOAT64 and pat.same(m["_I"], sidx) and isinstance(dmin, ast.Constant) and dmin.value == 0 and type(dmin.value) in (int, float)
                   and pat.match("float(%s)" % fi.params[1], bsz) is not None and isinstance(rev, ast.Constant) and rev.value is True)
-    chk.ob("R05.3", "_hist_by_num::engine-arguments", _verdict(vs), fi.where(), "engine called with (float64 positions 0..n-1, 0, the positions, float(nperbin), nbin, True)")
+    if paths is not None and not vs and not any(isinstance(x, ast.Call) and call_name(x) in (dh.name, "_dohist", "chist") for x in ast.walk(fi.node)):
+        chk.ob("R05.3", "_hist_by_num::engine-arguments", True, fi.where(), "the equal-occupancy histogram does not go through the histogram engines: no value reaches them from here", nontrivial=False)
+    else:
+        chk.ob("R05.3", "_hist_by_num::engine-arguments", _verdict(vs), fi.where(), "engine called with (float64 positions 0..n-1, 0, the positions, float(nperbin), nbin, True)")
 
 
 def _derive_contra(e):
@@ -2184,13 +2890,74 @@ def derivations(chk, repo):
     pre = {(norm(n.ast), tuple(rules.controlling_tests(view, n)[:1])) for n in cfg.nodes if n.kind == "stmt" and isinstance(n.ast, ast.Assign) and norm(n.ast.targets[0]) in ("binsize", "rev")}
     chk.ob("R05.5", "histogram::nbin-overrides-binsize", ("binsize = None", (("nbin is not None", "T"),)) in pre and ("rev = True", (("more", "T"),)) in pre, h.where(), "nbin overrides binsize; more=True implies reverse indices")
     chk.analysed_unit(dh.qualname)
-    cfg = cfg_of(dh)
-    view = cfg.view()
-    disp = {}
-    for n in cfg.nodes:
-        for c in rules.stmts_calls(n):
-            if call_name(c) in ("_hist_by_num", "_hist_by_binsize_or_nbin", "_get_minmax_and_indices"):
-                disp[call_name(c)] = (norm(c), rules.controlling_tests(view, n)[:1])
-    ok = disp.get("_hist_by_binsize_or_nbin") == ("self._hist_by_binsize_or_nbin(binsize, nbin, rev)", [("nbin is not None or binsize is not None", "T")]) and \
-        disp.get("_get_minmax_and_indices", ("",))[0] == "self._get_minmax_and_indices(min=min, max=max)"
-    chk.ob("R05.5", "dohist::dispatch", ok, dh.where(), "limits are applied first, then the binsize/nbin histogram is selected (%s)" % disp)
+    dispatch(chk, repo, dh)
+
+
+def dispatch(chk, repo, dh):
+    """R05.5 dohist::dispatch, per path and per given / absent binning option: the limits are applied (min -> min, max -> max)
+    before a histogram is made, and with no nperbin and a binsize or nbin the equal-width histogram is made from exactly
+    (binsize, nbin, rev).  Stated on the calls each path performs, in order, with the values that reach them; how the
+    selection is spelled (if / elif chain, guard clause that raises first, nested tests) does not matter."""
+    import itertools
+    lim_f = repo.func(ST + "Binner._get_minmax_and_indices")
+    hb_f = repo.func(ST + "Binner._hist_by_binsize_or_nbin")
+    hn = "self._hist_by_num"
+    paths = _paths(repo, dh, opaque=(lim_f.name, hb_f.name, "_hist_by_num", "calc_stats", "_get_sort_index"))
+    opts = [p for p in ("nperbin", "nbin", "binsize") if p in dh.params]
+    vs, shown, why = [], set(), set()
+    if len(opts) != 3 or "min" not in dh.params or "max" not in dh.params:
+        vs.append(None)
+    else:
+        for combo in itertools.product((None, NOTNONE), repeat=3):
+            flags = dict(zip(opts, combo))
+            if all(v is None for v in combo):
+                continue                                   # nothing to bin by: outside the property
+            sts = [st for st in paths or [] if st.outcome != "raise" and _consistent(st, flags)]
+            if not sts:
+                vs.append(None)
+            for st in sts:
+                calls = [c for c in st.calls if c.name in ("self." + lim_f.name, "self." + hb_f.name, hn)]
+                lim = [i for i, c in enumerate(calls) if c.name == "self." + lim_f.name]
+                hb = [i for i, c in enumerate(calls) if c.name == "self." + hb_f.name]
+                hist = [i for i, c in enumerate(calls) if c.name != "self." + lim_f.name]
+                shown.add(" -> ".join(norm(c.value) for c in calls))
+                if any(c.in_loop for c in calls) or len(lim) != 1 or len(hist) != 1:
+                    vs.append(None)
+                    continue
+                b = {k: _simp(v, flags) for k, v in _bind(calls[lim[0]], lim_f).items()}
+                if lim[0] > hist[0]:
+                    vs.append(False)
+                    why.add("the limits are applied after the histogram is made")
+                elif "min" in b and "max" in b:
+                    good = _is_name(b["min"], "min") and _is_name(b["max"], "max")
+                    bad = any(isinstance(b[k], ast.Name) and b[k].id in dh.params and b[k].id != k for k in ("min", "max")) or any(_is_none(b[k]) for k in ("min", "max"))
+                    vs.append(True if good else (False if bad else None))
+                    if bad:
+                        why.add("the limits handed on are min=%s, max=%s" % (norm(b["min"]), norm(b["max"])))
+                elif all(k in b or _is_none(lim_f.defaults.get(k)) for k in ("min", "max")):
+                    vs.append(False)                       # a limit is left to the callee's default None: it is dropped
+                    why.add("only %s handed on: the other limit is never applied" % (", ".join("%s=%s" % (k, norm(v)) for k, v in sorted(b.items())) or "no limit is"))
+                else:
+                    vs.append(None)
+                if flags["nperbin"] is None:
+                    if not hb:
+                        vs.append(False if calls[hist[0]].name == hn else None)
+                        why.add("the equal-occupancy histogram is made although nperbin is None")
+                        continue
+                    a = {k: _simp(v, flags) for k, v in _bind(calls[hb[0]], hb_f).items()}
+                    want = hb_f.params[1:4]
+                    if not all(k in a for k in want):
+                        vs.append(None)
+                        continue
+                    for k, par in zip(want, ("binsize", "nbin", "rev")):
+                        v = a[k]
+                        if _is_name(v, par) or (par == "rev" and isinstance(v, ast.Constant) and v.value is True):
+                            vs.append(True)
+                        elif (isinstance(v, ast.Name) and v.id in dh.params) or isinstance(v, ast.Constant):
+                            vs.append(False)
+                            why.add("%s of the equal-width histogram is `%s`" % (k, norm(v)))
+                        else:
+                            vs.append(None)
+    v = _verdict(vs)
+    chk.ob("R05.5", "dohist::dispatch", v, dh.where(), "limits are applied first (min=min, max=max), then with no nperbin the binsize/nbin histogram is made from (binsize, nbin, rev)%s (%s)"
+           % (" -- " + "; ".join(sorted(why)) if why and v is False else "", sorted(shown)[:4]))
